@@ -2,7 +2,8 @@
 # Confirm a seeded faulty change independently of the sub-agent that wrote it,
 # in ONE fixed scratch worktree (/tmp/sw-confirm$LANE, incremental target /tmp/sw-target$LANE; LANE= or 2 for a second pipeline):
 #   1. the patch applies to /repo HEAD and the tree compiles (bin with test-support,verif-hooks);
-#   2. demo.sh exits non-zero on the changed binary and 0 on the unchanged one (/verif/.build/repo);
+#   2. demo.sh exits non-zero on the changed binary and 0 on the unchanged one (built from the same
+#      base commit: env BASE=<sha>, default /repo HEAD; cached under /tmp/sw-bins/base-<sha>/);
 #   3. the pinned test suite (BASELINE.json's command, hooks feature off) still passes:
 #      every test in stable_pass passes.
 # The changed binary is kept as /tmp/sw-bins/<id>/git-ai for tools/run_seeded_bb.sh.
@@ -13,7 +14,14 @@ LANE=${LANE:-}; WT=/tmp/sw-confirm$LANE; T=/tmp/sw-target$LANE
 export CARGO_NET_OFFLINE=true CARGO_TERM_COLOR=never
 exec 8>/tmp/sw-confirm$LANE.lock; flock 8
 if [ ! -d "$WT" ]; then git -C /repo worktree add --detach "$WT" HEAD >/dev/null 2>&1 || { echo "cannot create worktree"; exit 2; }; fi
-git -C "$WT" checkout -q --detach "$(git -C /repo rev-parse HEAD)" && git -C "$WT" checkout -q -- . && git -C "$WT" clean -fdq -- src tests
+BASE=${BASE:-$(git -C /repo rev-parse HEAD)}; BASE=$(git -C /repo rev-parse "$BASE")
+git -C "$WT" checkout -q --detach "$BASE" && git -C "$WT" checkout -q -- . && git -C "$WT" clean -fdq -- src tests
+# the unchanged binary of that same base commit (cached)
+basebin=/tmp/sw-bins/base-${BASE:0:8}/git-ai
+if [ ! -x "$basebin" ]; then
+  ( cd "$WT" && cargo build --offline --bin git-ai --features test-support,verif-hooks --target-dir "$T" ) > /tmp/sw-confirm$LANE.build.log 2>&1 || { echo "CONFIRM $id: base does not build"; exit 2; }
+  mkdir -p "$(dirname "$basebin")" && cp "$T/debug/git-ai" "$basebin"
+fi
 res() { echo "CONFIRM $id: $*"; }
 git -C "$WT" apply "$src/patch.diff" || { res "patch does not apply"; exit 1; }
 nfiles=$(git -C "$WT" diff --stat | tail -1)
@@ -22,7 +30,7 @@ if git -C "$WT" diff --name-only | grep -qv '^src/'; then res "patch touches fil
   || { res "does not compile (hooks on)"; tail -20 /tmp/sw-confirm$LANE.build.log; git -C "$WT" checkout -q -- .; exit 1; }
 mkdir -p /tmp/sw-bins/$id && cp "$T/debug/git-ai" /tmp/sw-bins/$id/git-ai
 timeout 600 bash "$src/demo.sh" /tmp/sw-bins/$id/git-ai > /tmp/sw-bins/$id/demo.mut.out 2>&1; dm=$?
-timeout 600 bash "$src/demo.sh" /verif/.build/repo/debug/git-ai > /tmp/sw-bins/$id/demo.base.out 2>&1; db=$?
+timeout 600 bash "$src/demo.sh" "$basebin" > /tmp/sw-bins/$id/demo.base.out 2>&1; db=$?
 suite="skipped"
 if [ "$nosuite" != "--no-suite" ]; then
   rm -f "$WT/target/nextest/pb/junit.xml"; ( cd "$WT" && CARGO_TARGET_DIR="$T" cargo nextest run --workspace --no-fail-fast --tool-config-file pb:/w/lib/nextest.toml --profile pb --test-threads 8 --offline ) > /tmp/sw-bins/$id/suite.log 2>&1
@@ -43,7 +51,7 @@ EOF
 fi
 git -C "$WT" checkout -q -- .
 res "diff=[$nfiles] demo_on_changed=exit$dm demo_on_unchanged=exit$db suite=[$suite]"
-jq -n --arg id "$id" --arg dm "$dm" --arg db "$db" --arg suite "$suite" --arg head "$(git -C /repo rev-parse --short HEAD)" \
+jq -n --arg id "$id" --arg dm "$dm" --arg db "$db" --arg suite "$suite" --arg head "${BASE:0:8}" \
   '{id:$id, repo_head:$head, compiles:true, demo_exit_on_changed:($dm|tonumber), demo_exit_on_unchanged:($db|tonumber), pinned_suite:$suite}' > /tmp/sw-bins/$id/confirm.json
 ok=1; [ "$dm" != 0 ] && [ "$db" = 0 ] || ok=0
 case "$suite" in *"stable-but-not-passed=0 "*|skipped) ;; *) ok=0;; esac
